@@ -1,1 +1,13 @@
 //! Hooks owned by property C13 (feature `verif-hooks`).
+//!
+//! The scope graph of a type-checked program as plain text, one line per
+//! scope in allocation order:
+//! `printed name|parent|alias>scope.ident,…|ident:kind,…`
+//! where `@` is the root scope and `-` stands for "no parent".
+
+use crate::{pipeline::TypeChecked, runtime::OptCtx};
+
+/// Dump the scope graph (scopes, their parents, imports and declarations).
+pub fn scope_dump<Ctx: OptCtx>(checked: &TypeChecked<'_, Ctx>) -> Vec<String> {
+    checked.verif_c13_scopes()
+}
